@@ -15,7 +15,7 @@ Record case := {
 Definition wop_eqb (a b : wop) : bool :=
   match a, b with
   | WCommit x, WCommit y => Z.eqb x y
-  | WCompact, WCompact | WClose, WClose | WOffline, WOffline => true
+  | WCompact, WCompact | WClose, WClose | WOffline, WOffline | WOpenScan, WOpenScan => true
   | _, _ => false
   end.
 
